@@ -290,6 +290,12 @@ func (g *FuncGen) frameStore(st *State, a *Addr, what string, pos token.Pos) {
 	}
 	goal := fmt.Sprintf("(>= %s %s)", a.ref, g.alloc0)
 	if !need {
+		if len(g.ownFootprint) > 0 && a.idx != "" && len(names) == 1 {
+			if eg := g.elemFootprintGoal(a.ref, names[0]); eg != "" {
+				g.oblige("frame.store", "", st.reach, eg, "element store must target a footprint slice's array or a fresh array: "+what+" ("+names[0]+")", pos)
+			}
+			return
+		}
 		if len(g.ownFootprint) == 0 || a.idx != "" {
 			return
 		}
